@@ -14,4 +14,3 @@ impl Clone for Diff { #[verifier::external_body] fn clone(&self) -> (r: Self) en
 //@type base/src/user_model/history.rs QueueDiffs
 #[verifier::external_body] pub struct Model<'a> { _p: core::marker::PhantomData<&'a u8> }
 //@type base/src/user_model/common.rs UserModel
-pub open spec fn small(x: int) -> bool { -4194304 <= x <= 4194304 }
